@@ -395,6 +395,15 @@ def state_fp(sim) -> Tuple[List[List[str]], List[str]]:
 
     for name in sim._fields:
         if name == "road_network":
+            # the network object itself is not walked (a graph); what it ANSWERS for a fixed question is part of the reading:
+            # the route between the positions of the first two vehicles (links, lengths, speeds)
+            try:
+                vs = [sim.vehicles[k] for k in sorted(sim.vehicles.keys())[:2]]
+                if len(vs) == 2:
+                    rt = sim.road_network.route(vs[0].position, vs[1].position)
+                    out.append(["road_network:<probe>", json.dumps([[str(l.link_id), round(float(l.distance_km), 9), round(float(l.speed_kmph), 9)] for l in rt])])
+            except Exception:
+                pass
             continue
         val = getattr(sim, name)
         if name in ("vehicles", "stations", "bases", "requests"):
@@ -543,6 +552,20 @@ def observe_saved(job: Dict[str, Any], work: Path) -> Dict[str, Any]:
                               "labels": ["when_saved", "after_stepping_it"], "vals": [{"state": fp, "reports": []}, {"state": fp_now, "reports": []}]})
             rp = hive_cosim.crank(rp, 1).runner_payload
             take_reports()
+            if k % 3 == 2:
+                # a co-simulation user refreshes the road network for some hour of the day through the public op (the shipped
+                # networks do not implement update(): then nothing happens); what the retained states answer must not change
+                try:
+                    from nrel.hive.model.sim_time import SimTime
+                    from nrel.hive.state.simulation_state import simulation_state_ops as _ops
+
+                    now = int(rp.s.sim_time)
+                    hour = rng.choice([2, 7, 8, 12, 17, 22])
+                    s_new = _ops.update_road_network(rp.s, SimTime.build((now // 86400) * 86400 + hour * 3600 + now % 3600))
+                    if s_new is not None and type(s_new).__name__ == "SimulationState":
+                        rp = rp._replace(s=s_new)
+                except Exception:
+                    pass
             for sv in saved:
                 if k + 1 - sv["k"] in (1, later):
                     fp_now, _ = state_fp(sv["rp"].s)
